@@ -350,6 +350,13 @@ func (ex *Exec) evalSelector(x *ast.SelectorExpr, env *Env) TV {
 }
 
 func (ex *Exec) selectField(base TV, name string, env *Env) TV {
+	// an interface value whose payload is statically known (a struct boxed at
+	// the call site, e.g. the key handed to sync.Map.Load): select in the payload
+	if iv, ok := base.V.(IfaceV); ok && iv.Dyn != nil {
+		if _, isStruct := iv.Dyn.Underlying().(*types.Struct); isStruct {
+			return ex.selectField(TV{iv.Payload, iv.Dyn}, name, env)
+		}
+	}
 	if base.T == nil {
 		return ex.evalErr("field %s of untyped value", name)
 	}
